@@ -23,6 +23,8 @@ PEST_FILES = [
 ]
 
 HAND = [
+    # digits are '0'..'9': decimal digits of other scripts are not numbers
+    'r = { "a"{\u0663} }', 'r = { "a"{1,\uff12} }', 'r = { PUSH("a") ~ PEEK[-1\u0660..] }', 'r = { "a"{\u0967,} ~ PEEK[..\u0e53] }', 'r = { "a"{1\u0663} }',
     # numbers may carry leading zeros (number = @{ '0'..'9'+ }): the value counts, not the length of the spelling
     'r = { "x"{00000000002} }', 'r = { "x"{, 000000000003} ~ "y"{0000000000001,00000000000000000002} }', 'r = { "x"{000000000000000000000000001,} }',
     'r = { PUSH("a") ~ PEEK[00000000001..] }', 'r = { PUSH("a") ~ PEEK[..-000000000001] ~ PEEK[-00000000000002..000000000000003] }', 'r = { "x"{00} ~ "y"{,000} }',
